@@ -972,7 +972,13 @@ pub fn selftest_main(profiles: &[Profile], n: u64) -> i32 {
 
 /// Run /verif/miri under Miri with `seeds` seeds. Returns (evidence note, violation text if any).
 pub fn miri_tier(seeds: u32) -> (J, Option<String>) {
-    let dir = format!("{}/miri", verif_dir());
+    // the Miri crate sits next to the simulator crate (…/sim/target/release/sigsim → …/miri)
+    let dir = std::env::current_exe()
+        .ok()
+        .and_then(|e| e.parent().and_then(|p| p.parent()).and_then(|p| p.parent()).and_then(|p| p.parent()).map(|p| p.join("miri")))
+        .filter(|p| p.exists())
+        .map(|p| p.to_string_lossy().to_string())
+        .unwrap_or_else(|| format!("{}/miri", verif_dir()));
     let start = Instant::now();
     let child = Command::new("cargo")
         .args(["+nightly", "miri", "run", "--offline"])
